@@ -36,6 +36,7 @@ done
 tag=$(python3 -c "import hashlib,sys;print(hashlib.sha256(sys.argv[1].encode()).hexdigest()[:8])" "$wt")
 rm -rf "/verif/.build/harness-$tag" /verif/.build/neg
 rm -f /verif/replays/*.json
+python3 /verif/tools/extract_formulas.py >/dev/null
 cat > "$dest/meta.json" <<META
 {"seed": "$id", "breaks_property": "$prop", "tests_with_change": "$tests", "demo_exit_with_change": "$demo_with", "demo_exit_without_change": "$demo_without",
  "ran": "git apply patch.diff in a scratch worktree; cargo test --workspace --offline; demo with/without; VERIF_REPO=<worktree> ./check <prop>",
